@@ -25,6 +25,7 @@ import (
 	"github.com/google/martian/v3/mitm"
 	"github.com/google/martian/v3/zzverif/simnet"
 	"github.com/google/martian/v3/zzverif/vrt"
+	"golang.org/x/net/http/httpguts"
 
 	"verif/checks/pworld"
 	"verif/lib"
@@ -62,11 +63,20 @@ type finding struct{ Sig, Desc string }
 // hijacks on the resulting 502), "rterr+hijack-res", "skip+hijack-res".
 func has(beh, part string) bool {
 	for _, p := range strings.Split(beh, "+") {
-		if p == part {
-			return true
+		if p == part || p == "ml"+part {
+			return true // "mlreqerr" / "mlreserr": the same behaviour with a multi-line error message
 		}
 	}
 	return false
+}
+
+func errMsg(beh, part, msg string) error {
+	for _, p := range strings.Split(beh, "+") {
+		if p == "ml"+part {
+			return errors.New(msg + ": first line\nsecond line \"quoted\" \\ end")
+		}
+	}
+	return errors.New(msg)
 }
 
 func isHijack(beh string) bool { return has(beh, "hijack-req") || has(beh, "hijack-res") }
@@ -168,7 +178,7 @@ func run(sc scenario) (body func(), check func(r *vrt.Result) []finding) {
 				hijackRetTick[c.Conn] = vrt.Tick()
 			}
 			if has(b, "reqerr") {
-				return errors.New("request modifier failed")
+				return errMsg(b, "reqerr", "request modifier failed")
 			}
 			return nil
 		}
@@ -182,7 +192,7 @@ func run(sc scenario) (body func(), check func(r *vrt.Result) []finding) {
 				hijackRetTick[c.Conn] = vrt.Tick()
 			}
 			if has(b, "reserr") {
-				return errors.New("response modifier failed")
+				return errMsg(b, "reserr", "response modifier failed")
 			}
 			return nil
 		}
@@ -190,6 +200,14 @@ func run(sc scenario) (body func(), check func(r *vrt.Result) []finding) {
 			c := rec("rt", req, req.Header)
 			c.Warning = req.Header.Get("Warning")
 			rtCalls = append(rtCalls, c)
+			// like http.Transport, refuse to send header fields that are not valid on the wire
+			for name, vs := range req.Header {
+				for _, v := range vs {
+					if !httpguts.ValidHeaderFieldName(name) || !httpguts.ValidHeaderFieldValue(v) {
+						return nil, fmt.Errorf("net/http: invalid header field value for %q", name)
+					}
+				}
+			}
 			if has(behOf(c.Conn, c.Seq), "rterr") {
 				return nil, errors.New("simulated round trip failure")
 			}
@@ -556,7 +574,7 @@ func firstLine(s string) string {
 
 func scenarios(tier string) []scenario {
 	var out []scenario
-	inner := []string{"pass", "reqerr", "reserr", "skip", "rterr", "hijack-req", "hijack-res", "rterr+hijack-res", "skip+hijack-res", "reqerr+hijack-res", "reqerr+reserr"}
+	inner := []string{"pass", "reqerr", "reserr", "skip", "rterr", "hijack-req", "hijack-res", "rterr+hijack-res", "skip+hijack-res", "reqerr+hijack-res", "reqerr+reserr", "mlreqerr", "mlreserr", "mlreqerr+mlreserr"}
 	// plain: all behaviour sequences of length 1..2 (3 thorough)
 	maxLen := 2
 	if tier == "thorough" {
@@ -749,6 +767,11 @@ func main() {
 	rep.Coverage["exhaustive"] = rep.Incomplete == ""
 	rep.Coverage["bounds"] = fmt.Sprintf("%d scenarios: plain mode with all behaviour sequences (7 behaviours) up to length %d, blind CONNECT x 6 behaviours, MITM with plaintext / TLS inside x CONNECT behaviours x inner behaviours, optional second concurrent connection; every schedule with <= %d deviations (one less for TLS scenarios)", len(scen), map[string]int{"quick": 2, "thorough": 3}[tier], map[string]int{"quick": 1, "thorough": 3}[tier])
 	rep.Coverage["explanation"] = "each execution runs the real proxy.go/context.go over simnet under the gosim scheduler with recording modifiers; hook martian.VerifLiveContexts (add-only, build tag verif) counts live request-to-context associations"
-	rep.Assumptions = []string{"round trips go through a synchronous harness RoundTripper", "TLS inside the tunnel uses crypto/tls unmodified on simnet connections"}
+	rep.Assumptions = []string{"round trips go through a synchronous harness RoundTripper (which validates header fields like http.Transport)", "TLS inside the tunnel uses crypto/tls unmodified on simnet connections", "unsynchronised accesses (context/session id generation, context table) are covered by the auxiliary free-running -race pass (sampling)"}
+	raceIters := "30"
+	if tier == "thorough" {
+		raceIters = "300"
+	}
+	rep.ReportRaces(lib.RacePass("c02", "racebodies", "c02", raceIters))
 	rep.Finish()
 }
